@@ -217,8 +217,11 @@ void Case::inconclusive(const std::string& why) {
   finishChild(o.str());
 }
 
+static long g_caseAlarmS = 0;
 static void runOneInChild(const Prop& prop, Case& c) {
   g_case = &c;
+  if (g_caseAlarmS > 0)
+    alarm((unsigned)g_caseAlarmS);
   if (g_slot) {
     std::string d = c.p.dump();
     size_t n = std::min(d.size(), kSlotSize - 16);
@@ -262,6 +265,9 @@ int runMain(int argc, char** argv, const Prop* props, int nprops) {
   long timeoutS = 0;
   bool list = false;
   double budgetS = 0; // optional wall-clock budget: stop launching new cases (reported as such)
+  long replaySeeds = 1;     // replay: also try this many other schedule seeds for the same parameters
+  bool keepGoing = false;   // survey mode: do not stop at the first failure, count signatures
+  bool stopOnKnown = false; // stop at the first failure matching a known signature (demonstrations)
   for (int i = 1; i < argc; ++i) {
     std::string a = argv[i];
     auto nxt = [&]() -> std::string { return (i + 1 < argc) ? argv[++i] : ""; };
@@ -285,6 +291,14 @@ int runMain(int argc, char** argv, const Prop* props, int nprops) {
       timeoutS = strtol(nxt().c_str(), nullptr, 10);
     else if (a == "--budget")
       budgetS = strtod(nxt().c_str(), nullptr);
+    else if (a == "--case-alarm")
+      g_caseAlarmS = strtol(nxt().c_str(), nullptr, 10);
+    else if (a == "--replay-seeds")
+      replaySeeds = strtol(nxt().c_str(), nullptr, 10);
+    else if (a == "--keep-going")
+      keepGoing = true;
+    else if (a == "--stop-on-known")
+      stopOnKnown = true;
     else if (a == "--list")
       list = true;
   }
@@ -323,10 +337,12 @@ int runMain(int argc, char** argv, const Prop* props, int nprops) {
   if (cases < 0)
     cases = opts.thorough() ? prop->thoroughCases : prop->quickCases;
   if (replay)
-    cases = 1;
+    cases = replaySeeds > 0 ? replaySeeds : 1;
   g_isE1 = (prop->flags & kE1) != 0;
   if (!timeoutS)
     timeoutS = g_isE1 ? 120 : 900;
+  if (!g_isE1 && !g_caseAlarmS)
+    g_caseAlarmS = 20; // native: SIGALRM attributes a hang to its case ("crash:Alarm clock")
   if (jobs < 1)
     jobs = 1;
 
@@ -349,7 +365,7 @@ int runMain(int argc, char** argv, const Prop* props, int nprops) {
   std::map<std::string, long> classes;
   std::vector<std::string> samples;
   std::vector<Failure> failures;
-  std::map<std::string, long> knownHits, incReasons;
+  std::map<std::string, long> knownHits, incReasons, failSigs;
   long inconclusiveN = 0, crashes = 0;
   bool stop = false;
   bool budgetHit = false;
@@ -384,6 +400,11 @@ int runMain(int argc, char** argv, const Prop* props, int nprops) {
         c.replayMode = replay;
         if (replay) {
           c.p = KV::parse(replayKv);
+          if (idx > 0) { // same program, other generated schedules
+            Rng rr(seed * 7777ull + idx);
+            c.p.setu("ss", rr.next() >> 1);
+            c.p.set("si", rr.pick<long>({2, 3, 4, 8, 16, 32, 64}));
+          }
         } else {
           Rng rng(seed * 1000003ull + idx * 7919ull + 17);
           prop->gen(rng, c.p, opts);
@@ -457,15 +478,20 @@ int runMain(int argc, char** argv, const Prop* props, int nprops) {
         if (f.size() >= 5) {
           terminal = true;
           uint64_t idx = strtoull(f[4].c_str(), nullptr, 10);
-          if (f[0] == "known")
+          if (f[0] == "known") {
             knownHits[f[1]]++;
+            if (stopOnKnown)
+              stop = true;
+          }
           else if (f[0] == "inc") {
             ++inconclusiveN;
             incReasons[f[1]]++;
           } else {
-            if (failures.size() < 20)
+            failSigs[f[1]]++;
+            if (failures.size() < (keepGoing ? 600u : 20u))
               failures.push_back(Failure{f[0], f[1], f[2], f[3], idx});
-            stop = true;
+            if (!keepGoing)
+              stop = true;
           }
         }
       }
@@ -540,13 +566,15 @@ int runMain(int argc, char** argv, const Prop* props, int nprops) {
         if (isKnown)
           knownHits[sig]++;
         else {
-          if (failures.size() < 20)
+          failSigs[sig]++;
+          if (failures.size() < (keepGoing ? 600u : 20u))
             failures.push_back(Failure{"fail", sig, oneLine(err.substr(err.size() > 1500 ? err.size() - 1500 : 0)), kv, idx});
-          stop = true;
+          if (!keepGoing)
+            stop = true;
         }
       }
     }
-    if (terminal && lastIdx + 1 < ch.to && !replay)
+    if (terminal && lastIdx + 1 < ch.to)
       pending.emplace_back(lastIdx + 1, ch.to);
     close(ch.fd);
     if (ch.errFd >= 0)
@@ -639,6 +667,12 @@ int runMain(int argc, char** argv, const Prop* props, int nprops) {
   o << "},\"known_hits\":{";
   first = true;
   for (auto& k : knownHits) {
+    o << (first ? "" : ",") << "\"" << jsonEsc(k.first) << "\":" << k.second;
+    first = false;
+  }
+  o << "},\"fail_sigs\":{";
+  first = true;
+  for (auto& k : failSigs) {
     o << (first ? "" : ",") << "\"" << jsonEsc(k.first) << "\":" << k.second;
     first = false;
   }
